@@ -339,6 +339,8 @@ func GenStateInventory(outDir string) error {
 			}
 		}
 	}
+	// ---- package-level variables: state shared by ALL checker instances and all goroutines ----
+	pv := PackageVarWrites(pkgs)
 	sort.Slice(structs, func(i, j int) bool {
 		if structs[i].pkg != structs[j].pkg {
 			return structs[i].pkg < structs[j].pkg
@@ -377,6 +379,29 @@ func GenStateInventory(outDir string) error {
 			fs = append(fs, fmt.Sprintf("F %s %s %s", coqfmt.Str(f.Name()), coqfmt.Str(ts), coqfmt.List(ws)))
 		}
 		items = append(items, fmt.Sprintf("  S %s %s [\n      %s]", coqfmt.Str(si.pkg), coqfmt.Str(si.name), strings.Join(fs, ";\n      ")))
+	}
+	// one pseudo-struct per package: its package-level variables that are written anywhere in function bodies
+	{
+		byPkg := map[string][]*PkgVar{}
+		var pkgNames []string
+		for _, v := range pv {
+			if byPkg[v.Pkg] == nil {
+				pkgNames = append(pkgNames, v.Pkg)
+			}
+			byPkg[v.Pkg] = append(byPkg[v.Pkg], v)
+		}
+		sort.Strings(pkgNames)
+		for _, pn := range pkgNames {
+			var fs []string
+			for _, v := range byPkg[pn] {
+				var ws []string
+				for _, w := range v.Sites {
+					ws = append(ws, fmt.Sprintf("W %s %s %s", coqfmt.Str(w.Method), coqfmt.Str(w.Kind), coqfmt.N(w.N)))
+				}
+				fs = append(fs, fmt.Sprintf("F %s %s %s", coqfmt.Str(v.Name), coqfmt.Str(v.Type), coqfmt.List(ws)))
+			}
+			items = append(items, fmt.Sprintf("  S %s %s [\n      %s]", coqfmt.Str(pn), coqfmt.Str("package-level variables"), strings.Join(fs, ";\n      ")))
+		}
 	}
 	b.WriteString(strings.Join(items, ";\n"))
 	b.WriteString("\n].\n")
@@ -669,4 +694,226 @@ func GenMutationSites(outDir string) error {
 	b.WriteString("\n].\n")
 	common.WriteFile(filepath.Join(outDir, "MutationSites.v"), b.String())
 	return nil
+}
+
+// ---------------------------------------------------------------- package-level variables
+
+// PkgVar is a package-level variable of checkers/, checkers/internal/* or linter/ that is written in a function body.
+type PkgVar struct {
+	Pkg, Name, Type string
+	Sites           []PkgVarSite
+	// Checkers are the checker structs (xxxChecker -> xxx) from whose methods a LIVE (non-constructor) write is reachable
+	// through calls inside the package.
+	Checkers []string
+}
+
+type PkgVarSite struct {
+	Method, Kind string
+	N            int
+}
+
+// PackageVarWritesLoaded loads the repository packages and returns PackageVarWrites.
+func PackageVarWritesLoaded() ([]*PkgVar, error) {
+	pkgs, err := load()
+	if err != nil {
+		return nil, err
+	}
+	return PackageVarWrites(pkgs), nil
+}
+
+// PackageVarWrites lists the package-level variables that function bodies write: assignment / op-assignment / element or
+// sub-field write / ++ / delete / clear rooted at the variable, a pointer-receiver method called on it (buf.Reset()), and
+// its address being taken (Fprintf(&buf, ...)). Kinds are prefixed ctor: in init / new* / addChecker as for struct fields.
+func PackageVarWrites(pkgs []*packages.Package) []*PkgVar {
+	type key struct{ pkg, name string }
+	vars := map[key]*PkgVar{}
+	counts := map[key]map[PkgVarSite]int{}
+	writers := map[key]map[*types.Func]bool{} // functions holding a live write
+	var order []key
+	for _, p := range pkgs {
+		sp := shortPkg(p.PkgPath)
+		if !(sp == "checkers" || strings.HasPrefix(sp, "checkers/internal") || sp == "linter") || strings.HasPrefix(sp, "checkers/internal/linttest") {
+			continue
+		}
+		rootVar := func(e ast.Expr) *types.Var {
+			for {
+				switch x := e.(type) {
+				case *ast.ParenExpr:
+					e = x.X
+				case *ast.SelectorExpr:
+					if _, isPkg := p.TypesInfo.Uses[identOf(x.X)].(*types.PkgName); isPkg {
+						return nil
+					}
+					e = x.X
+				case *ast.IndexExpr:
+					e = x.X
+				case *ast.StarExpr:
+					e = x.X
+				case *ast.Ident:
+					v, ok := p.TypesInfo.ObjectOf(x).(*types.Var)
+					if !ok || v.Pkg() != p.Types || v.Parent() != p.Types.Scope() {
+						return nil
+					}
+					return v
+				default:
+					return nil
+				}
+			}
+		}
+		calls := map[*types.Func]map[*types.Func]bool{}
+		for _, f := range p.Syntax {
+			if strings.HasSuffix(fset.Position(f.Pos()).Filename, "_test.go") {
+				continue
+			}
+			for _, d := range f.Decls {
+				fd, ok := d.(*ast.FuncDecl)
+				if !ok || fd.Body == nil {
+					continue
+				}
+				fn := funcName(fd)
+				fobj, _ := p.TypesInfo.Defs[fd.Name].(*types.Func)
+				base := fn
+				if i := strings.LastIndex(base, "."); i >= 0 {
+					base = base[i+1:]
+				}
+				ctor := base == "init" || strings.HasPrefix(base, "new") || base == "addChecker"
+				rec := func(v *types.Var, kind string) {
+					if v == nil {
+						return
+					}
+					k := key{sp, v.Name()}
+					if vars[k] == nil {
+						vars[k] = &PkgVar{Pkg: sp, Name: v.Name(), Type: types.TypeString(v.Type(), func(p *types.Package) string { return p.Name() })}
+						counts[k] = map[PkgVarSite]int{}
+						writers[k] = map[*types.Func]bool{}
+						order = append(order, k)
+					}
+					if ctor {
+						kind = "ctor:" + kind
+					} else if fobj != nil {
+						writers[k][fobj] = true
+					}
+					counts[k][PkgVarSite{Method: fn, Kind: kind}]++
+				}
+				ast.Inspect(fd.Body, func(n ast.Node) bool {
+					switch x := n.(type) {
+					case *ast.AssignStmt:
+						if x.Tok == token.DEFINE {
+							return true
+						}
+						for _, lhs := range x.Lhs {
+							kind := "assign"
+							switch lhs.(type) {
+							case *ast.IndexExpr:
+								kind = "elem-write"
+							case *ast.SelectorExpr:
+								kind = "subfield-write"
+							}
+							rec(rootVar(lhs), kind)
+						}
+					case *ast.IncDecStmt:
+						rec(rootVar(x.X), "incdec")
+					case *ast.UnaryExpr:
+						if x.Op == token.AND {
+							rec(rootVar(x.X), "address-taken")
+						}
+					case *ast.CallExpr:
+						if id, ok := x.Fun.(*ast.Ident); ok && (id.Name == "delete" || id.Name == "clear") && len(x.Args) > 0 {
+							rec(rootVar(x.Args[0]), "map-"+id.Name)
+						}
+						if sel, ok := x.Fun.(*ast.SelectorExpr); ok {
+							if s, ok := p.TypesInfo.Selections[sel]; ok && s.Kind() == types.MethodVal {
+								if sig, ok := s.Obj().Type().(*types.Signature); ok && sig.Recv() != nil {
+									if _, ptr := sig.Recv().Type().(*types.Pointer); ptr && !readOnlyHandle(s.Recv()) {
+										if v := rootVar(sel.X); v != nil {
+											if _, isPtrVar := v.Type().Underlying().(*types.Pointer); !isPtrVar || true {
+												rec(v, "ptr-method:"+s.Obj().Name())
+											}
+										}
+									}
+								}
+							}
+						}
+						// call edges inside the package
+						var callee *types.Func
+						switch fx := x.Fun.(type) {
+						case *ast.Ident:
+							callee, _ = p.TypesInfo.Uses[fx].(*types.Func)
+						case *ast.SelectorExpr:
+							callee, _ = p.TypesInfo.Uses[fx.Sel].(*types.Func)
+						}
+						if callee != nil && callee.Pkg() == p.Types && fobj != nil {
+							if calls[fobj] == nil {
+								calls[fobj] = map[*types.Func]bool{}
+							}
+							calls[fobj][callee] = true
+						}
+					}
+					return true
+				})
+			}
+		}
+		// which checker structs reach a live write
+		for k, ws := range writers {
+			if k.pkg != sp || len(ws) == 0 {
+				continue
+			}
+			reach := map[*types.Func]bool{}
+			for w := range ws {
+				reach[w] = true
+			}
+			for changed := true; changed; {
+				changed = false
+				for caller, cs := range calls {
+					if reach[caller] {
+						continue
+					}
+					for c := range cs {
+						if reach[c] {
+							reach[caller] = true
+							changed = true
+							break
+						}
+					}
+				}
+			}
+			seen := map[string]bool{}
+			for fn := range reach {
+				sig, _ := fn.Type().(*types.Signature)
+				if sig == nil || sig.Recv() == nil {
+					continue
+				}
+				if n := namedOf(sig.Recv().Type()); n != nil && strings.HasSuffix(n.Obj().Name(), "Checker") {
+					name := strings.TrimSuffix(n.Obj().Name(), "Checker")
+					if !seen[name] {
+						seen[name] = true
+						vars[k].Checkers = append(vars[k].Checkers, name)
+					}
+				}
+			}
+			sort.Strings(vars[k].Checkers)
+		}
+	}
+	sort.Slice(order, func(i, j int) bool { return order[i].pkg+"\x00"+order[i].name < order[j].pkg+"\x00"+order[j].name })
+	var out []*PkgVar
+	for _, k := range order {
+		v := vars[k]
+		for s, n := range counts[k] {
+			s.N = n
+			v.Sites = append(v.Sites, s)
+		}
+		sort.Slice(v.Sites, func(i, j int) bool {
+			if v.Sites[i].Method != v.Sites[j].Method {
+				return v.Sites[i].Method < v.Sites[j].Method
+			}
+			return v.Sites[i].Kind < v.Sites[j].Kind
+		})
+		out = append(out, v)
+	}
+	return out
+}
+
+func identOf(e ast.Expr) *ast.Ident {
+	id, _ := e.(*ast.Ident)
+	return id
 }
